@@ -52,6 +52,8 @@ type useGen struct {
 	uid  int
 	eg   *exprGen
 	uses map[string]int
+	// inSlot: generating a slot body (no further nesting of uses in it)
+	inSlot bool
 }
 
 // argExpr generates the value of argument a; loopVar, when set, is an int
@@ -86,7 +88,7 @@ func (u *useGen) argExpr(a, loopVar string) *tw.Expr {
 func (u *useGen) slotBody(loopVar string) []*tw.Stmt {
 	u.uid++
 	body := []*tw.Stmt{tw.Text(fmt.Sprintf("slot#%d", u.uid))}
-	switch rapid.IntRange(0, 4).Draw(u.rt, "slotBodyForm") {
+	switch rapid.IntRange(0, 5).Draw(u.rt, "slotBodyForm") {
 	case 0:
 		body = append(body, tw.Print(tw.Var("s1")))
 	case 1:
@@ -97,6 +99,14 @@ func (u *useGen) slotBody(loopVar string) []*tw.Stmt {
 		body = append(body, &tw.Stmt{Kind: tw.SIf, Branches: []tw.Branch{{Cond: tw.Var("b1"), Body: []*tw.Stmt{tw.Text("(b1)")}}}})
 	case 3:
 		body = append(body, tw.Print(tw.Bin("+", tw.Var("i1"), intLit(int64(u.uid)))))
+	case 4:
+		// a use written in the page inside a slot body (one level)
+		if !u.inSlot {
+			u.inSlot = true
+			body = append(body, u.use(loopVar)...)
+			u.inSlot = false
+			u.uses["in-slot-body"]++
+		}
 	}
 	return body
 }
@@ -160,7 +170,7 @@ func (u *useGen) page(depth int) []*tw.Stmt {
 
 func TestC07_Components(t *testing.T) {
 	c := harness.New(t, "C07", "components",
-		"pages with 1..4 uses of four component files (arguments used in text, expressions and conditions; a page variable that is not passed; default and named top-level slots; one under components/ addressed by '~name'): the same component several times with different arguments and different / missing slot bodies, uses inside @each and @for (arguments and slot bodies from the loop variable, >= 2 passes), inside @if/@else, and inside @insert blocks of a layout; slot bodies with text and {{ }} over page variables. Expected: reference instantiation (arguments evaluated at the place of use, surrounding scope visible, each placeholder replaced by the body passed by that use or nothing). Non-trivial: one component used >= 2 times or a use evaluated in a loop. Distinct by hash of files + data.")
+		"pages with 1..4 uses of four component files (arguments used in text, expressions and conditions; a page variable that is not passed; default and named top-level slots; one under components/ addressed by '~name'): the same component several times with different arguments and different / missing slot bodies, uses inside @each and @for (arguments and slot bodies from the loop variable, >= 2 passes), inside @if/@else, inside @insert blocks of a layout, and inside the slot body passed to another use; slot bodies with text and {{ }} over page variables. Expected: reference instantiation (arguments evaluated at the place of use, surrounding scope visible, each placeholder replaced by the body passed by that use or nothing). Non-trivial: one component used >= 2 times or a use evaluated in a loop. Distinct by hash of files + data.")
 	defer c.Finish()
 	in := interp()
 	runRapid(t, c, 4000, 45000, func(rt *rapid.T) {
@@ -194,7 +204,7 @@ func TestC07_Components(t *testing.T) {
 		}
 		nt := maxUses >= 2 || u.uses["in-loop"] > 0
 		classes := []string{"outcome:" + out.St.String(), fmt.Sprintf("max-uses-of-one:%d", min(maxUses, 4))}
-		for _, k := range []string{"in-loop", "in-insert"} {
+		for _, k := range []string{"in-loop", "in-insert", "in-slot-body"} {
 			if u.uses[k] > 0 {
 				classes = append(classes, "use:"+k)
 			}
